@@ -11,6 +11,8 @@ use std::mem;
 use std::ptr::NonNull;
 
 const B: usize = 6;
+/// No tree that fits into an address space is higher (the height may be garbage).
+const MAX_HEIGHT: usize = 64;
 
 /// Helper function, returns true if structure member name exists and starts with `starts_with` string.
 fn assert_member_name(member: &StructureMember, starts_with: &str) -> bool {
@@ -425,6 +427,8 @@ impl Handle {
         let leaf = self.node.data.leaf();
         let parent = match leaf.parent {
             None => return Ok(None),
+            // parent links of a corrupted tree may form a cycle
+            Some(_) if self.node.height >= MAX_HEIGHT => return Ok(None),
             Some(p) => p,
         };
 
@@ -456,6 +460,9 @@ impl<'a> BTreeReflection<'a> {
         k_type_id: TypeId,
         v_type_id: TypeId,
     ) -> Result<Self, AssumeError> {
+        if root_height > MAX_HEIGHT {
+            return Err(AssumeError::IncompleteInterp("btree (height)"));
+        }
         Ok(Self {
             root: root_ptr,
             root_h: root_height,
